@@ -421,6 +421,7 @@ impl<'tcx> Cx<'tcx> {
             if let Some(imp) = tcx.impl_of_assoc(def_id) {
                 let ity = tcx.type_of(imp).instantiate_identity().skip_normalization();
                 let _ = write!(s, ",\"impl_for\":{}", esc(&self.ty_str(ity)));
+                let _ = write!(s, ",\"auto_derived\":{}", tcx.is_automatically_derived(imp));
                 if let Some(trref) = tcx.impl_opt_trait_ref(imp) {
                     let trref = trref.instantiate_identity().skip_normalization();
                     let _ = write!(s, ",\"impl_trait\":{}", esc(&with_no_trimmed_paths!(format!("{}", trref))));
